@@ -12,6 +12,8 @@
 (*       succeed and this is exactly what it does (frame condition: every     *)
 (*       other object unchanged is part of objs);                             *)
 (*   [ok |-> "no", why |-> reason]  the call must raise an error;            *)
+(*   [ok |-> "maybe", objs, res]  the call may be refused (argument form the   *)
+(*       library need not support); if it is accepted this is what it does    *)
 (*   [ok |-> "any"]  the properties are silent (peeks past the end, exotic    *)
 (*       corner cases): nothing is demanded except the frame condition.       *)
 (* Values: integers are TonBits big integers [neg, mag]; the limits are       *)
@@ -26,6 +28,8 @@ With(objs, id, o) == [i \in (DOMAIN objs) \cup {id} |-> IF i = id THEN o ELSE ob
 Yes(objs2, res) == [ok |-> "yes", objs |-> objs2, res |-> res]
 No(why) == [ok |-> "no", why |-> why]
 Unspec == [ok |-> "any"]
+\* "may be refused; if accepted, exactly this": a call the properties allow the library not to support
+MaybeOf(e) == IF e.ok = "yes" THEN [e EXCEPT !.ok = "maybe"] ELSE e
 Unit == [unit |-> 1]
 
 IsBuilder(objs, id) == id \in DOMAIN objs /\ objs[id].k = "builder"
@@ -137,7 +141,11 @@ SnakeOf(objs, id) ==       \* <<>>-or-[ok, bytes]
 Do(objs, c) ==
     CASE c.op = "new_builder" -> Yes(With(objs, c.new, Obj("builder", 0, <<>>, <<>>, 0)), [new |-> c.new])
       \* ---- builder stores
-      [] c.op = "store_bits"  -> Put(objs, c.obj, BitsOf(c.bits), <<>>)
+      \* the bits may be handed over in any iterable form; for forms without a length (generators, map objects, iterators) the
+      \* properties do not say whether the call is supported, but IF it is accepted it is this store and it never exceeds capacity
+      [] c.op = "store_bits"  -> IF "form" \in DOMAIN c /\ c.form \in {"gen", "map", "iter", "chain"}
+                                 THEN MaybeOf(Put(objs, c.obj, BitsOf(c.bits), <<>>))
+                                 ELSE Put(objs, c.obj, BitsOf(c.bits), <<>>)
       [] c.op = "store_bit"   -> Put(objs, c.obj, <<c.bit>>, <<>>)
       [] c.op = "store_uint"  -> IF ~BigUFits(c.v, c.w) THEN No("out_of_range") ELSE Put(objs, c.obj, BigUBits(c.v, c.w), <<>>)
       [] c.op = "store_int"   -> IF ~BigSFits(c.v, c.w) THEN No("out_of_range") ELSE Put(objs, c.obj, BigSBits(c.v, c.w), <<>>)
